@@ -372,6 +372,37 @@ fn operands(l: Layout, g: u32, tier: Tier) -> Vec<u128> {
     v
 }
 
+/// Operands whose base-two logarithm is a dyadic rational k + j/2^m (m <= 3, thorough 5): the two representable
+/// neighbours on either side of 2^(k + j/2^m) for every k the layout can hold. These are the inputs on which the
+/// square-and-compare loop of log2 meets its comparison against two with (near) equality, and where the binary
+/// expansion of the true result terminates early.
+fn dyadic_log_operands(l: Layout, tier: Tier) -> Vec<u128> {
+    use vcore::hp::{self, Hp};
+    let m = mask(l.w);
+    let top = if l.signed { l.w - 1 } else { l.w };
+    let mbits = if tier == Tier::Quick { 3u32 } else { 5 };
+    let mut v = vec![];
+    let mut seen = std::collections::HashSet::new();
+    for j in 1..(1u64 << mbits) {
+        // 2^(j / 2^mbits) in [1, 2), 256 fractional bits
+        let r: Hp = hp::exp(hp::ln2().mul_small(j).shr(mbits));
+        for e in 0..top {
+            // floor(r * 2^e) as raw bits: the value is r * 2^(e - frac)
+            let fl = r.0.shr_floor(hp::HF - e).low128();
+            for d in [0u128, 1, 2] {
+                let Some(hi) = fl.checked_add(d) else { continue };
+                if top == 128 || hi >> top == 0 {
+                    push_unique(&mut v, &mut seen, hi, m);
+                }
+                if d < 2 && fl >= d {
+                    push_unique(&mut v, &mut seen, fl - d, m);
+                }
+            }
+        }
+    }
+    v
+}
+
 fn exponents(tier: Tier) -> Vec<i32> {
     let mut v: Vec<i32> = (-64..=64).collect();
     for k in 7..31 {
@@ -673,7 +704,11 @@ fn explore_pair(p: &Pair, func: usize, prop: Prop, tier: Tier, chunk: Option<(us
         _ => 100_000,
     };
     set_limit(limit);
-    let ops = operands(s, grid_bits(s, tier), tier);
+    let mut ops = operands(s, grid_bits(s, tier), tier);
+    if func < 4 {
+        let seen: std::collections::HashSet<u128> = ops.iter().copied().collect();
+        ops.extend(dyadic_log_operands(s, tier).into_iter().filter(|x| !seen.contains(x)));
+    }
     let ops: &[u128] = match chunk {
         Some((i, n)) => {
             let per = (ops.len() + n - 1) / n;
